@@ -8,7 +8,7 @@ _SEVERAL_BLANKS = re.compile("  +")
 _RDF_TYPE_CONTRACTED = ["a", "rdf:type"]
 _RDF_TYPE_URI = "<http://www.w3.org/1999/02/22-rdf-syntax-ns#type>"
 _BOOLEANS = ["true", "false"]
-_INI_BASE_URIS = ["/", "#"]
+_INI_BASE_URIS = ["/"]
 _CLOSURES = [",", ";", "."]
 _S = 0
 _P = 1
